@@ -14,7 +14,7 @@ ID = 'C08'
 LEVEL = 'model_checking'
 TECHNIQUE = ('bounded exhaustive enumeration of Twp/Rge numbers x presence of directions x spellings x direction words x default '
              'sources and values (+ OCR look-alike substitutions) on the real preprocessor / PLSSDesc / find_twprge')
-LEVEL_TEXT = ('4 townships x 5 ranges x {N, S, absent} x {E, W, absent} x 10 spellings x 6 direction-word styles (quick: same style for '
+LEVEL_TEXT = ('6 townships x 7 ranges x {N, S, absent} x {E, W, absent} x 10 spellings x 6 direction-word styles (quick: same style for '
               'both letters; thorough: all 36 pairs) x 9 default-value combinations through the config string, and the other four '
               'default sources at one deviation; every digit position of 4 number pairs with each OCR look-alike; all ordered pairs of '
               '6 spellings in one text. Oracle: the normalised T..-R.. text, the standard TRS, the fixed_twprge warning iff a direction '
@@ -29,8 +29,8 @@ ASSUMPTIONS = [
     "numbers outside {1,7,15,154} x {1,2,9,97,102} (and the OCR pool) are not explored",
 ]
 
-TWPS = [154, 1, 7, 15]
-RGES = [97, 1, 2, 9, 102]
+TWPS = [154, 1, 7, 15, 2, 20]
+RGES = [97, 1, 2, 9, 102, 25, 200]        # incl. numbers that start with 2 (a lone range 2 is the documented special case)
 NSW = {'N': ['N', 'North', 'n', 'N.', 'north', 'NORTH'], 'S': ['S', 'South', 's', 'S.', 'south', 'SOUTH']}
 EWW = {'E': ['E', 'East', 'e', 'E.', 'east', 'EAST'], 'W': ['W', 'West', 'w', 'W.', 'west', 'WEST']}
 _p = None
